@@ -212,15 +212,26 @@ def AffPt.g1Bytes : AffPt → Bytes
   | .inf => g1IdBytes
   | .aff x y => g1BytesOfAffine x.a y.a
 
-/-- `PointG2::from_bytes` / `PointG2Inf::from_bytes` (the same function): only the length is
-checked by the wrapper; `ECP2::frombytes` reduces every coordinate modulo `p` and returns the
-IDENTITY, without an error, when the pair is not on the curve -/
-def implG2Bytes (bs : Bytes) : Res AffPt :=
+/-- `PointG2::from_bytes_inf` (behind `PointG2Inf::from_bytes`, `Accumulator::from_bytes`): only the
+length is checked by the wrapper; `ECP2::frombytes` reduces every coordinate modulo `p` and
+returns the IDENTITY, without an error, when the pair is not on the curve -/
+def implG2BytesInf (bs : Bytes) : Res AffPt :=
   if bs.length ≠ 128 then .err
   else
     let x : F2 := ⟨beNat (slice bs 0 32) % p, beNat (slice bs 32 32) % p⟩
     let y : F2 := ⟨beNat (slice bs 64 32) % p, beNat (slice bs 96 32) % p⟩
     if onCurveAff B2 x y then .ok (.aff x y) else .ok .inf
+
+/-- `PointG2::from_bytes` (`Tail`, keys, proofs — the types that must not hold the identity):
+`from_bytes_inf`, then the identity and everything that `to_bytes` does not write back as the same
+128 bytes are refused (garbage that became the identity, unreduced coordinates) -/
+def implG2Bytes (bs : Bytes) : Res AffPt :=
+  match implG2BytesInf bs with
+  | .ok (.aff x y) => if g2BytesOfAffine x y = bs then .ok (.aff x y) else .err
+  | .ok .inf => .err
+  | .err => .err
+  | .panic => .panic
+  | .dep => .dep
 
 /-- the property for the 128-byte G2 form: exact length, every coordinate `< p`, on the curve,
 in the subgroup of order `r`; the identity `(0,1)` only for `PointG2Inf` (accumulator, witness) -/
@@ -236,11 +247,11 @@ def specG2Bytes (allowInf : Bool) (bs : Bytes) : Res AffPt :=
     else if onCurveAff B2 ⟨xa, xb⟩ ⟨ya, yb⟩ && inSubgroup B2 (Pt.ofAffine ⟨xa, xb⟩ ⟨ya, yb⟩)
     then .ok (.aff ⟨xa, xb⟩ ⟨ya, yb⟩) else .err
 
-/-- `PointG1::from_bytes` → `ECP::frombytes`: byte 0 selects the form (`04` uncompressed,
+/-- `ECP::frombytes` behind `PointG1::from_bytes`: byte 0 selects the form (`04` uncompressed,
 `02/03` compressed with the parity of `y`), bytes 65..127 are ignored; `x ≥ p`, `y ≥ p`, a pair
 that is not on the curve, an `x` without a square root and every other tag give the IDENTITY
 without an error -/
-def implG1Bytes (bs : Bytes) : Res AffPt :=
+def amclG1FromBytes (bs : Bytes) : Res AffPt :=
   if bs.length ≠ 128 then .err
   else
     let tag := bs.headD 0
@@ -258,6 +269,17 @@ def implG1Bytes (bs : Bytes) : Res AffPt :=
         .ok (.aff ⟨x, 0⟩ ⟨y, 0⟩)
       else .ok .inf
     else .ok .inf
+
+/-- `PointG1::from_bytes`: `ECP::frombytes`, then the identity and everything that `to_bytes` does
+not write back as the same 128 bytes are refused (garbage that became the identity, compressed
+forms, non-zero padding) -/
+def implG1Bytes (bs : Bytes) : Res AffPt :=
+  match amclG1FromBytes bs with
+  | .ok (.aff x y) => if g1BytesOfAffine x.a y.a = bs then .ok (.aff x y) else .err
+  | .ok .inf => .err
+  | .err => .err
+  | .panic => .panic
+  | .dep => .dep
 
 /-- the property for the 128-byte G1 form: `04‖x‖y‖0^63`, `x, y < p`, on the curve, `r•P = O`,
 never the identity (`PointG1` has no identity-carrying type) -/
@@ -495,8 +517,17 @@ def g2AmclIsInf (cs : List RawFp) : Bool :=
   amclIsZero (cs.getD 0 ⟨1, 0⟩) && amclIsZero (cs.getD 1 ⟨1, 0⟩) &&
   amclIsZero (cs.getD 4 ⟨1, 0⟩) && amclIsZero (cs.getD 5 ⟨1, 0⟩)
 
+/-- the identity test of `from_string_inf`: `x` and `z` are zero modulo `p` (`redc`, then `rmod`),
+whichever multiple of `p` the residue is and whatever the counter says -/
+def g1IsInf (cs : List RawFp) : Bool :=
+  denote (cs.getD 0 ⟨1, 0⟩) == 0 && denote (cs.getD 2 ⟨1, 0⟩) == 0
+
+def g2IsInf (cs : List RawFp) : Bool :=
+  denote (cs.getD 0 ⟨1, 0⟩) == 0 && denote (cs.getD 1 ⟨1, 0⟩) == 0 &&
+  denote (cs.getD 4 ⟨1, 0⟩) == 0 && denote (cs.getD 5 ⟨1, 0⟩) == 0
+
 /-- what `ECP::inf` / `ECP2::inf` leave behind: `x = 0`, `y = 1` (Montgomery residue `Rm`, counter 2
-after `nres`), `z = 0`.  A decoded value that amcl's `is_infinity` recognises as the identity is
+after `nres`), `z = 0`.  A decoded value that is the identity (`g1IsInf` / `g2IsInf`) is
 normalised to this representation (any `(0 : y : 0)`, even `(0 : 0 : 0)`). -/
 def g1IdRaw : List RawFp := [⟨1, 0⟩, ⟨2, Rm⟩, ⟨1, 0⟩]
 def g2IdRaw : List RawFp := [⟨1, 0⟩, ⟨1, 0⟩, ⟨2, Rm⟩, ⟨1, 0⟩, ⟨1, 0⟩, ⟨1, 0⟩]
@@ -510,7 +541,7 @@ def implG1Text (allowInf : Bool) (s : List Char) : Res TextPt :=
     let cs := cs0.map truncBig
     if !(cs.all inBigDomain) then .dep
     else if !(onCurveProj B1 (g1PtOfRaw cs)) then .err
-    else if g1AmclIsInf cs then (if allowInf then .ok ⟨g1IdRaw⟩ else .err)
+    else if g1IsInf cs then (if allowInf then .ok ⟨g1IdRaw⟩ else .err)
     else .ok ⟨cs⟩
 
 /-- amcl's `Fp2` squaring negates a component after reducing it only as far as its counter
@@ -528,30 +559,20 @@ def implG2Text (allowInf : Bool) (s : List Char) : Res TextPt :=
     let cs := cs0.map truncBig
     if !(cs.all inBigDomain) || !(g2Honest cs) then .dep
     else if !(onCurveProj B2 (g2PtOfRaw cs)) then .err
-    else if g2AmclIsInf cs then (if allowInf then .ok ⟨g2IdRaw⟩ else .err)
+    else if g2IsInf cs then (if allowInf then .ok ⟨g2IdRaw⟩ else .err)
     else .ok ⟨cs⟩
 
-/-- `−p⁻¹ mod 2^280` -/
-def Nprime : Nat := 0x73839EB65373CCBA60808C92022379C45B843C6E371BA81104F6C808435E50D79435E5
-
-/-- amcl `FP::redc` = `BIG::monty` on the raw residue, exactly (no final subtraction):
-`(x + ((x·N') mod R)·p) / R`, `R = 2^280` — equal to `x·R⁻¹ mod p` or to that plus `p` -/
-def montyRedc (x : Nat) : Nat := (x + (x * Nprime % 2 ^ 280) * p) / 2 ^ 280
-
-/-- bytes written by `to_bytes` for a value decoded from text (`affine()` first; a value that
-`is_infinity` reports as the identity is written with its raw `x`, `y` passed through `redc` only —
-possibly NOT reduced below `p`: the identity has many byte encodings) -/
+/-- bytes written by `to_bytes` for a value given by its components: a value that amcl's
+`is_infinity` reports as the identity is written as the canonical identity (`inf()` first),
+every other value through `affine()` -/
 def g1TextBytes (t : TextPt) : Bytes :=
   let P := g1PtOfRaw t.raw
-  if g1AmclIsInf t.raw then
-    [4] ++ toBE 32 (montyRedc ((t.raw.getD 0 ⟨1, 0⟩).x)) ++ toBE 32 (montyRedc ((t.raw.getD 1 ⟨1, 0⟩).x)) ++
-      List.replicate 63 0
+  if g1AmclIsInf t.raw then g1IdBytes
   else let a := toAffine P; g1BytesOfAffine a.1.a a.2.a
 
 def g2TextBytes (t : TextPt) : Bytes :=
   let P := g2PtOfRaw t.raw
-  if g2AmclIsInf t.raw then
-    ((List.range 4).map fun i => toBE 32 (montyRedc ((t.raw.getD i ⟨1, 0⟩).x))).flatten
+  if g2AmclIsInf t.raw then g2IdBytes
   else let a := toAffine P; g2BytesOfAffine a.1 a.2
 
 /-- the property for the text forms of points: exact component count; every index a positive
